@@ -32,14 +32,17 @@ from . import c01
 PID = 'C03'
 RULE = ('cases = groups of up to 4 flag vectors of equal length n (1..5) over {0,1,2,3,4,9} (quick: a directed block + '
         '~300 sampled vectors; thorough: all 9330 non-empty vectors; the empty vector admits no Fitter and is vacuous), each '
-        'with its own random photometry, ignored bands carrying arbitrary values incl. non-positive ones and -999, limit '
+        'with its own random photometry, ignored bands carrying arbitrary values incl. non-positive ones, -999, signed zeros with '
+        'and without error, +-inf, NaN, 1e+-300 (a directed block puts every entry of IGNORED_ALPHABET into a flag-9 and a flag-0 '
+        'slot; pair (a) is taken against the same source with ordinary values on those bands, which must fit finitely), limit '
         'confidences from {0, (0,1), 1}, one random distance-independent and one distance-dependent package per case; '
         'non-trivial = at least one vector of the group has a non-singular fit in some mode (>= 2 fitted bands with '
         'distinct extinction coefficient, resp. >= 1 fitted band); distinct = canonical hash of the generated inputs')
 REQUIRED_BRANCHES = ['flag0', 'flag1', 'flag2', 'flag3', 'flag4', 'flag9', 'conf0', 'conf1', 'conf_mid',
                      'mode_indep', 'mode_dist', 'nonpositive_ignored', 'placeholder_ignored',
                      'limit_violated', 'limit_ok', 'conf1_violated', 'pair_ignored', 'pair_conf0', 'pair_flag4',
-                     'model_corr', 'singular']
+                     'model_corr', 'singular', 'ignored_zero_flux_nonzero_err_flag0', 'ignored_zero_flux_nonzero_err_flag9',
+                     'ignored_zero_flux_zero_err', 'ignored_inf', 'ignored_nan', 'ignored_huge_tiny']
 ASSUMPTIONS = ['IEEE rounding is not modelled: model comparison tolerance 1e-9 x condition number; paired real runs are '
                'compared to 1e-12 relative (they are bit-identical on the unchanged tree)',
                'limit decisions closer than 1e-9 to the threshold are skipped (counted as margin_relaxed)',
@@ -73,13 +76,29 @@ def all_vectors():
 
 # ----------------------------------------------------------------------------- generation
 
+INF = float('inf')
+NAN = float('nan')
+# extreme (flux, error) contents for bands that must be ignored: zero flux with and without error, signed zeros,
+# infinities, NaN, huge / tiny / denormal magnitudes, negative values, the -999 placeholder
+IGNORED_ALPHABET = [
+    [0., 1.], [0., 0.], [-0., 1.], [-0., 0.], [0., -1.], [INF, 1.], [-INF, 1.], [INF, INF], [1., INF], [1., -INF],
+    [NAN, 1.], [1., NAN], [NAN, NAN], [0., NAN], [0., INF], [1e300, 1.], [1e-300, 1.], [1e300, 1e300],
+    [1e-300, 1e-300], [1., 1e300], [1., 1e-300], [1e300, 1e-300], [1e-300, 1e300], [-1., 1.], [-1., -1.], [1., -1.],
+    [-999., -999.], [-1e300, 1.], [5e-324, 1.], [0., 1e-300], [0., 1e300],
+]
+
+
 def ignored_values(rng, f):
     """arbitrary (flux, error) for a band that must be ignored"""
-    k = rng.choice(['placeholder', 'zero', 'negflux', 'negerr', 'positive', 'tiny', 'neg_both'])
+    if rng.random() < 0.4:
+        return list(rng.choice(IGNORED_ALPHABET))
+    k = rng.choice(['placeholder', 'zero', 'zero_err', 'negflux', 'negerr', 'positive', 'tiny', 'neg_both'])
     if k == 'placeholder':
         return [-999., -999.]
     if k == 'zero':
         return [0., 0.]
+    if k == 'zero_err':
+        return [0., nice(rng, 1e-3, 1e2, 3)]
     if k == 'negflux':
         return [-abs(f), float('%.3g' % (abs(f) * 0.1))]
     if k == 'negerr':
@@ -91,7 +110,12 @@ def ignored_values(rng, f):
     return [nice(rng, 1e-3, 1e4, 3), nice(rng, 1e-3, 1e2, 3)]
 
 
-def gen_source(rng, vec, models, wavs, directed=None):
+def benign_values(f):
+    """ordinary positive (flux, error): the reference content of an ignored band"""
+    return [float('%.3g' % (abs(f) * 1.7)), float('%.3g' % (abs(f) * 0.13))]
+
+
+def gen_source(rng, vec, models, wavs, directed=None, ign=None):
     """underlying photometry for one flag vector: linear (F, sigma) for every band, limit (flux, confidence),
     two independent draws of ignored content"""
     nb = len(vec)
@@ -113,8 +137,8 @@ def gen_source(rng, vec, models, wavs, directed=None):
         else:
             fac = {'violated': 1e-3, 'ok': 1e3}.get(how, 10 ** rng.uniform(-0.4, 0.4))
         lim.append([float('%.4g' % (f * fac)), conf])
-        ign_a.append(ignored_values(rng, f))
-        ign_b.append(ignored_values(rng, f))
+        ign_a.append(list(ign[0]) if ign is not None else ignored_values(rng, f))
+        ign_b.append(list(ign[1]) if ign is not None else ignored_values(rng, f))
     return dict(flags=list(vec), lin=lin, lim=lim, ign_a=ign_a, ign_b=ign_b)
 
 
@@ -157,9 +181,14 @@ def gen_case(rng, vectors, directed_ids=None):
     sources = []
     for i, v in enumerate(vectors):
         d = None
-        if directed_ids is not None and directed_ids[i] in DIRECTED_LIMITS:
-            d = DIRECTED_LIMITS[directed_ids[i]]
-        sources.append(gen_source(rng, v, models, wavs, d))
+        ign = None
+        did = directed_ids[i] if directed_ids is not None else None
+        if isinstance(did, (list, tuple)):
+            k = did[1]
+            ign = (IGNORED_ALPHABET[k], IGNORED_ALPHABET[(k + 11) % len(IGNORED_ALPHABET)])
+        elif did in DIRECTED_LIMITS:
+            d = DIRECTED_LIMITS[did]
+        sources.append(gen_source(rng, v, models, wavs, d, ign))
     return dict(wavs=wavs, tab_w=tw, tab_chi=chi, models=models, av=av, kind=kind,
                 aps=aps, grow=grow, drange=[dmin, dmax], theta=theta, step=step, sources=sources)
 
@@ -175,6 +204,13 @@ def vector_groups(seed, tier):
         for k in range(0, len(items), GROUP):
             chunk = items[k:k + GROUP]
             groups.append(([c[0] for c in chunk], [c[1] for c in chunk]))
+    # directed block: every entry of the ignored-value alphabet in a flag-9 and in a flag-0 slot of a well-posed source
+    shapes = [[1, 9, 4, 0, 1], [9, 1, 1], [1, 0, 4], [0, 9, 1, 1]]
+    items = [(shapes[k % len(shapes)], ['ign', k]) for k in range(len(IGNORED_ALPHABET))]
+    for shape in shapes:
+        chunk = [it for it in items if it[0] is shape]
+        for k in range(0, len(chunk), GROUP):
+            groups.append(([c[0] for c in chunk[k:k + GROUP]], [c[1] for c in chunk[k:k + GROUP]]))
     vecs = list(all_vectors())
     if tier == 'quick':
         rng = case_rng(seed, PID, 'sample')
@@ -229,6 +265,7 @@ def variants(src):
     out = {'S': build(flags, src['ign_a'])}
     if any(f in (0, 9) for f in flags):
         out['ignored'] = build(flags, src['ign_b'])
+        out['benign'] = build(flags, [benign_values(x[0]) for x in src['lin']])
     if any(f in (2, 3) for f in flags):
         out['conf0'] = build(flags, src['ign_a'], conf0=True)
         nolim = [0 if f in (2, 3) else f for f in flags]
@@ -376,6 +413,14 @@ def arithmetic(s, a, branches):
     return None, relaxed
 
 
+def for_model(s):
+    """the source as sent to the driver: ignored bands (flags 0, 9) carry zeros - the model never reads them (theorem
+    C03_ignored) and infinities / NaN have no rational form"""
+    keep = [f not in (0, 9) for f in s['flags']]
+    return dict(flags=list(s['flags']), flux=[x if k else 0. for x, k in zip(s['flux'], keep)],
+                err=[x if k else 0. for x, k in zip(s['err'], keep)])
+
+
 def nonsingular_indep(case, s):
     return not c01.singular(case, s)
 
@@ -403,6 +448,16 @@ def check_mode(case, mode, fitter, names, use_model, branches, stats):
                         branches.add('nonpositive_ignored')
                     if ign[0] == -999.:
                         branches.add('placeholder_ignored')
+                    if ign[0] == 0. and ign[1] != 0. and not math.isnan(ign[1]):
+                        branches.add('ignored_zero_flux_nonzero_err_flag%d' % f)
+                    if ign[0] == 0. and ign[1] == 0.:
+                        branches.add('ignored_zero_flux_zero_err')
+                    if math.isinf(ign[0]) or math.isinf(ign[1]):
+                        branches.add('ignored_inf')
+                    if math.isnan(ign[0]) or math.isnan(ign[1]):
+                        branches.add('ignored_nan')
+                    if any(x != 0 and not math.isinf(x) and (abs(x) >= 1e300 or abs(x) <= 1e-300) for x in ign):
+                        branches.add('ignored_huge_tiny')
             if f in (2, 3):
                 c = src['lim'][j][1]
                 branches.add('conf0' if c == 0. else 'conf1' if c == 1. else 'conf_mid')
@@ -441,9 +496,17 @@ def check_mode(case, mode, fitter, names, use_model, branches, stats):
         # (a) ignored content
         if 'ignored' in res:
             branches.add('pair_ignored')
-            diff = same_info(A, res['ignored'], 1e-12)
-            if diff:
-                return fail('(a) other values on flag 0/9 bands', ('S', 'ignored'), diff)
+            R = res['benign']
+            if regular and not (np.all(np.isfinite(R['av'])) and np.all(np.isfinite(R['sc']))
+                                and not np.any(np.isnan(R['chi2']))):
+                return CaseResult(False, violates=True, branches=branches,
+                                  detail='%s mode: non-finite result on a well-posed source with ordinary values on its '
+                                         'ignored bands %r: av=%r sc=%r chi2=%r'
+                                         % (mode, vs['benign'], R['av'].tolist(), R['sc'].tolist(), R['chi2'].tolist()))
+            for k in ('S', 'ignored'):
+                diff = same_info(R, res[k], 1e-12)
+                if diff:
+                    return fail('(a) other values on flag 0/9 bands', ('benign', k), diff)
         if not regular:
             continue
         # everything below needs a well-posed fit
@@ -460,7 +523,7 @@ def check_mode(case, mode, fitter, names, use_model, branches, stats):
         cond = 1.
         exp = None
         if mode == 'indep' and use_model:
-            exp = c01.model_side(case, S)
+            exp = c01.model_side(case, for_model(S))
             cond = max([1.] + [e['cond'] for e in exp])
         elif mode == 'indep':
             cond = 1e3
